@@ -3,4 +3,5 @@ package main
 import (
 	_ "verif/harness/c11"
 	_ "verif/harness/c17"
+	_ "verif/harness/c20"
 )
